@@ -194,3 +194,131 @@ _tostr("Call_Stmt", 2, "CALL ", 0, (1, "(", ")"))
 _tostr("Suffix", 2, "RESULT(", 0, ")", (1, " ", ""))
 _tostr("Return_Stmt", 1, "RETURN", (0, " ", ""))
 _tostr("Stmt_Function_Stmt", 3, 0, " (", (1, "", ""), ") = ", 2)
+_tostr("Complex_Literal_Constant", 2, "(", 0, ", ", 1, ")")
+_tostr("Char_Selector", 2, "(", (0, "LEN = ", ", "), "KIND = ", 1, ")")
+_tostr("Type_Attr_Spec", 2, 0, (1, "(", ")"))
+_tostr("Type_Param_Def_Stmt", 3, "INTEGER", (0, "", ""), ", ", 1, " :: ", 2)
+_tostr("Component_Decl", 4, 0, (1, "(", ")"), (2, "*", ""), (3, " ", ""))
+_tostr("Entity_Decl", 4, 0, (1, "(", ")"), (2, "*", ""), (3, " ", ""))
+_tostr("Proc_Component_Def_Stmt", 3, "PROCEDURE(", (0, "", ""), "), ", 1, " :: ", 2)
+_tostr("Enum_Def_Stmt", 1, 0)
+_tostr("Ac_Implied_Do", 2, "(", 0, ", ", 1, ")")
+_tostr("Declaration_Type_Spec", 2, 0, "(", 1, ")")
+_tostr("Assumed_Size_Spec", 2, (0, "", ", "), (1, "", " : "), "*")
+_tostr("Bind_Stmt", 2, 0, " :: ", 1)
+_tostr("Data_Stmt_Set", 2, 0, " / ", 1, " /")
+_tostr("Data_Implied_Do", 5, "(", 0, ", ", 1, " = ", 2, ", ", 3, (4, ", ", ""), ")")
+_tostr("Data_Stmt_Value", 2, 0, " * ", 1)
+_tostr("Target_Stmt", 1, "TARGET :: ", 0)
+_tostr("Implicit_Stmt", 1, "IMPLICIT ", 0)
+_tostr("Letter_Spec", 2, 0, (1, " - ", ""))
+_tostr("Equivalence_Set", 2, "(", 0, ", ", 1, ")")
+_tostr("Subscript_Triplet", 3, (0, "", ""), ":", (1, " ", ""), (2, " : ", ""), serves=("C01", "C02", "C03"))
+_tostr("Where_Construct_Stmt", 1, "WHERE (", 0, ")", serves=("C01", "C02", "C08"))
+contract(F03 + "Case_Selector.tostr", types=dict(self="Base"), returns="str",
+         requires={"item_count": "len(self.items) == 1"},
+         ensures={"default_or_the_ranges_in_brackets": "squeeze(result) == squeeze('DEFAULT' if self.items[0] is None else '(' + str(self.items[0]) + ')')"},
+         raises=[], serves=["C01", "C02"])
+_tostr("Io_Implied_Do", 2, "(", 0, ", ", 1, ")")
+_tostr("Io_Implied_Do_Control", 4, 0, " = ", 1, ", ", 2, (3, ", ", ""))
+_tostr("Generic_Spec", 2, 0, "(", 1, ")")
+_tostr("Dtio_Generic_Spec", 1, 0)
+_tostr("Procedure_Declaration_Stmt", 3, "PROCEDURE(", (0, "", ""), ")", (1, ", ", " ::"), " ", 2)
+_tostr("Proc_Attr_Spec", 2, 0, (1, "(", ")"))
+_tostr("Alt_Return_Spec", 1, "*", 0)
+_tostr("Type_Guard_Stmt", 3, 0, (1, " (", ")"), (2, " ", ""), serves=("C01", "C02", "C08"))
+
+# the opening statements of the block constructs: recognised only with their keywords and one pair of parentheses around
+# the rest, whose content goes whole to the rule (C02; C08: no parenthesis is supplied or dropped here)
+_IT = "string[2:-4].strip()"
+contract(F03 + "If_Then_Stmt.match", types=dict(string="str"), returns="tuple[ref:Base]?", modifies=["rule_evals"],
+    calls={"Scalar_Logical_Expr": "proto:operand_rule"},
+    ensures={
+        "keywords_at_both_ends": "implies(result is not None, string[:2].upper() == 'IF' and string[-4:].upper() == 'THEN')",
+        "condition_in_one_pair_of_parentheses": "implies(result is not None, " + _IT + ".startswith('(') and " + _IT + ".endswith(')') and len(" + _IT + ") >= 2)",
+        "condition_whole": "implies(result is not None, rule_text(nonnull(result)[0]) == " + _IT + "[1:-1].strip())",
+    }, raises={"*": {}}, serves=["C02", "C08"])
+
+_WC = "string[5:].lstrip()"
+contract(F03 + "Where_Construct_Stmt.match", types=dict(string="str"), returns="tuple[ref:Base]?", modifies=["rule_evals"],
+    calls={"Mask_Expr": "proto:operand_rule"},
+    ensures={
+        "keyword_leads": "implies(result is not None, string[:5].upper() == 'WHERE')",
+        "mask_in_one_pair_of_parentheses": "implies(result is not None, " + _WC + ".startswith('(') and " + _WC + ".endswith(')') and len(" + _WC + ") >= 2)",
+        "mask_whole_and_not_empty": "implies(result is not None, rule_text(nonnull(result)[0]) == " + _WC + "[1:-1].strip() and " + _WC + "[1:-1].strip() != '')",
+    }, raises={"*": {}}, serves=["C02", "C08"])
+
+_SC = "string[6:].lstrip()[4:].lstrip()"
+contract(F03 + "Select_Case_Stmt.match", types=dict(string="str"), returns="tuple[ref:Base]?", modifies=["rule_evals"],
+    calls={"Case_Expr": "proto:operand_rule"},
+    ensures={
+        "keywords_lead": "implies(result is not None, string[:6].upper() == 'SELECT' and string[6:].lstrip()[:4].upper() == 'CASE')",
+        "expression_in_one_pair_of_parentheses": "implies(result is not None, " + _SC + ".startswith('(') and " + _SC + ".endswith(')') and len(" + _SC + ") >= 2)",
+        "expression_whole": "implies(result is not None, rule_text(nonnull(result)[0]) == " + _SC + "[1:-1].strip())",
+    }, raises={"*": {}}, serves=["C02", "C08"])
+
+_STI = _SC + "[1:-1].strip()"
+contract(F03 + "Select_Type_Stmt.match", types=dict(string="str"), returns="tuple[ref:Base?,ref:Base]?", modifies=["rule_evals"],
+    calls={"Associate_Name": "proto:operand_rule", "Selector": "proto:operand_rule"},
+    ensures={
+        "keywords_lead": "implies(result is not None, string[:6].upper() == 'SELECT' and string[6:].lstrip()[:4].upper() == 'TYPE')",
+        "selector_in_one_pair_of_parentheses": "implies(result is not None, " + _SC + ".startswith('(') and " + _SC + ".endswith(')') and len(" + _SC + ") >= 2)",
+        "associate_name_iff_arrow": "implies(result is not None, (nonnull(result)[0] is not None) == ('=>' in " + _STI + "))",
+        "without_arrow_the_selector_is_everything": "implies(result is not None and nonnull(result)[0] is None, rule_text(nonnull(result)[1]) == " + _STI + ")",
+        "with_arrow_name_before_selector_after": "implies(result is not None and nonnull(result)[0] is not None, "
+            "rule_text(nonnull(nonnull(result)[0])) == " + _STI + "[:" + _STI + ".find('=>')].rstrip() and rule_text(nonnull(result)[1]) == " + _STI + "[" + _STI + ".find('=>') + 2:].lstrip())",
+    }, raises={"*": {}}, serves=["C02", "C08"])
+
+_EI = "string[4:].lstrip()[2:].lstrip()"
+_EIR = _EI + "[" + _EI + ".rfind(')') + 1:].lstrip()"
+contract(F03 + "Else_If_Stmt.match", types=dict(string="str"), returns="tuple[ref:Base,ref:Base?]?", modifies=["rule_evals"],
+    calls={"Scalar_Logical_Expr": "proto:operand_rule", "If_Construct_Name": "proto:operand_rule"},
+    ensures={
+        "keywords_lead": "implies(result is not None, string[:4].upper() == 'ELSE' and string[4:].lstrip()[:2].upper() == 'IF')",
+        "condition_between_the_first_and_the_last_parenthesis": "implies(result is not None, " + _EI + ".startswith('(') and ')' in " + _EI + " and "
+            "rule_text(nonnull(result)[0]) == " + _EI + "[1:" + _EI + ".rfind(')')].strip())",
+        "then_follows": "implies(result is not None, " + _EIR + "[:4].upper() == 'THEN')",
+        "construct_name_is_the_rest": "implies(result is not None, (nonnull(result)[1] is not None) == (" + _EIR + "[4:].lstrip() != '') and "
+            "implies(nonnull(result)[1] is not None, rule_text(nonnull(nonnull(result)[1])) == " + _EIR + "[4:].lstrip()))",
+    }, raises={"*": {}}, serves=["C02", "C08"])
+
+_IN = "string[6:].lstrip()"
+_INR = _IN + "[" + _IN + ".rfind(')') + 1:].lstrip()"
+_INN = "(" + _INR + "[2:].lstrip() if " + _INR + ".startswith('::') else " + _INR + ")"
+contract(F03 + "Intent_Stmt.match", types=dict(string="str"), returns="tuple[ref:Base,ref:Base]?", modifies=["rule_evals"],
+    calls={"Intent_Spec": "proto:operand_rule", "Dummy_Arg_Name_List": "proto:operand_rule"},
+    ensures={
+        "keyword_leads": "implies(result is not None, string[:6].upper() == 'INTENT')",
+        "spec_between_the_first_and_the_last_parenthesis": "implies(result is not None, " + _IN + ".startswith('(') and ')' in " + _IN + " and "
+            "rule_text(nonnull(result)[0]) == " + _IN + "[1:" + _IN + ".rfind(')')].strip() and rule_text(nonnull(result)[0]) != '')",
+        "names_are_the_rest_after_optional_colons": "implies(result is not None, rule_text(nonnull(result)[1]) == " + _INN + " and " + _INN + " != '')",
+    }, raises={"*": {}}, serves=["C02"])
+
+_CG = "string[2:].lstrip()[2:].lstrip()"
+_CGR = _CG + "[" + _CG + ".find(')') + 1:].lstrip()"
+_CGE = "(" + _CGR + "[1:].lstrip() if " + _CGR + ".startswith(',') else " + _CGR + ")"
+contract(F03 + "Computed_Goto_Stmt.match", types=dict(string="str"), returns="tuple[ref:Base,ref:Base]?", modifies=["rule_evals"],
+    calls={"Label_List": "proto:operand_rule", "Scalar_Int_Expr": "proto:operand_rule"},
+    ensures={
+        "keywords_lead": "implies(result is not None, string[:2].upper() == 'GO' and string[2:].lstrip()[:2].upper() == 'TO')",
+        "labels_up_to_the_first_closing_parenthesis": "implies(result is not None, " + _CG + ".startswith('(') and ')' in " + _CG + " and "
+            "rule_text(nonnull(result)[0]) == " + _CG + "[1:" + _CG + ".find(')')].strip() and rule_text(nonnull(result)[0]) != '')",
+        "expression_is_the_rest_after_an_optional_comma": "implies(result is not None, rule_text(nonnull(result)[1]) == " + _CGE + " and " + _CGE + " != '')",
+    }, raises={"*": {}}, serves=["C02"])
+
+_BD = "string[5:].lstrip()[4:].lstrip()"
+contract(F03 + "Block_Data_Stmt.match", types=dict(string="str"), returns="tuple[ref:Base?]?", modifies=["rule_evals"],
+    calls={"Block_Data_Name": "proto:operand_rule"},
+    ensures={
+        "keywords_lead": "implies(result is not None, string[:5].upper() == 'BLOCK' and string[5:].lstrip()[:4].upper() == 'DATA')",
+        "name_is_the_rest": "implies(result is not None, (nonnull(result)[0] is not None) == (" + _BD + " != '') and "
+            "implies(nonnull(result)[0] is not None, rule_text(nonnull(nonnull(result)[0])) == " + _BD + "))",
+    }, raises={"*": {}}, serves=["C02"])
+
+_PS = "(string[6:].lstrip() if string[:6].upper() == 'MODULE' else string)"
+contract(F03 + "Procedure_Stmt.match", types=dict(string="str"), returns="tuple[ref:Base]?", modifies=["rule_evals"],
+    calls={"Procedure_Name_List": "proto:operand_rule"},
+    ensures={
+        "keyword_after_optional_module": "implies(result is not None, " + _PS + "[:9].upper() == 'PROCEDURE')",
+        "names_are_the_rest": "implies(result is not None, rule_text(nonnull(result)[0]) == " + _PS + "[9:].lstrip())",
+    }, raises={"*": {}}, serves=["C02"])
